@@ -342,7 +342,7 @@ def layout_fallback(relpaths, work, log):
 
 def concrete_playback(name, work, log, extra_args=()):
     """re-run one failed harness alone with Kani's concrete playback; returns (list of concrete byte vectors or None, failed checks)"""
-    res = run_harnesses([name], os.path.join(work, 'kpb'), log, timeout=1800, jobs=1,
+    res = run_harnesses([name], os.path.join(work, 'kpb'), log, timeout=600, jobs=1,
                         extra_args=list(extra_args) + ['-Z', 'concrete-playback', '--concrete-playback=print'])
     r = res[name]
     vals = None
